@@ -13,7 +13,7 @@ def root_matches(ctx, body, allowed):
     return any(path_matches(r.id, a) for a in allowed)
 
 
-def who_may_call(ctx, rule, instance, targets, allowed, floor=None, crate=None, skip_noise=True, why=''):
+def who_may_call(ctx, rule, instance, targets, allowed, floor=None, crate='quinn_proto', skip_noise=True, why=''):
     """P1: every live call site resolving to `targets` lies in a function of `allowed` (closures -> parent)."""
     sites = ctx.facts.callers_of(*targets, crate=crate)
     n = 0
@@ -32,7 +32,7 @@ def who_may_call(ctx, rule, instance, targets, allowed, floor=None, crate=None, 
     return sites
 
 
-def who_may_write(ctx, rule, instance, adt, field, allowed, floor=None, crate=None, kinds=('assign', 'mutborrow', 'callresult'),
+def who_may_write(ctx, rule, instance, adt, field, allowed, floor=None, crate='quinn_proto', kinds=('assign', 'mutborrow', 'callresult'),
                   exempt_consumers=(), why=''):
     """P2: every write / &mut borrow of S.f lies in `allowed` functions."""
     ws = [w for w in field_writes(ctx.facts, adt, field, crate=crate) if w.kind in kinds]
@@ -52,7 +52,7 @@ def who_may_write(ctx, rule, instance, adt, field, allowed, floor=None, crate=No
     return ws
 
 
-def who_may_construct(ctx, rule, instance, adt, variant, allowed, floor=None, crate=None, pred=None, why=''):
+def who_may_construct(ctx, rule, instance, adt, variant, allowed, floor=None, crate='quinn_proto', pred=None, why=''):
     """P3: aggregate construction sites of ADT(::variant) [satisfying pred] lie in `allowed`."""
     cs = constructions(ctx.facts, adt, variant, crate=crate)
     if pred:
@@ -198,3 +198,100 @@ def edge_leads_to_error(ctx, body, br, truth_value, code, stop_sites=()):
     if p is None:
         return True, ''
     return False, 'path avoiding TransportError::%s: %s' % (code, fmt_path(body, p))
+
+
+# --------------------------------------------------------------------------
+# guards (P6)
+# --------------------------------------------------------------------------
+
+def effect_blocks(ctx, body, code=None, variant=None, calls=()):
+    """blocks that realise an effect: TransportError::<code>(..) call, construction of (adt, variant), or a call"""
+    res = set()
+    if code:
+        res |= err_code_calls(ctx, body, code)
+    if variant:
+        adt, var = variant
+        for i, j, pl, rv, line in body.assigns():
+            if rv[0] == 'agg' and rv[1][0] == 'adt' and path_matches(rv[1][1], adt) and rv[1][2] == var:
+                res.add(i)
+    if calls:
+        res |= {c.bb for c in body.calls() if c.is_(*calls)}
+    return res
+
+
+def guard_edges(ctx, body, relpred, stop_named=False):
+    """(Branch, truth, target) for every branch edge on which a relation satisfying relpred(op,a,b) holds"""
+    out = []
+    for br in branches(ctx.facts, body, stop_named):
+        for truth in (True, False):
+            rel = relation_on(br.desc, truth)
+            if rel is not None and relpred(*rel):
+                out.append((br, truth, br.target(1 if truth else 0)))
+    return out
+
+
+def bool_edges(ctx, body, pred, stop_named=False):
+    """(Branch, truth, target) for branches whose (negation-peeled) bool discriminant satisfies pred; truth is the
+    value of the peeled descriptor on that edge"""
+    out = []
+    for br in branches(ctx.facts, body, stop_named):
+        inner, neg = peel_not(br.desc)
+        if pred(inner):
+            out.append((br, True, br.target(0 if neg else 1)))
+            out.append((br, False, br.target(1 if neg else 0)))
+    return out
+
+
+def discr_edges(ctx, body, pred, stop_named=False):
+    """branches on discr(x) where pred(x): returns list of Branch"""
+    return [br for br in branches(ctx.facts, body, stop_named) if br.desc[0] == 'discr' and pred(br.desc[1])]
+
+
+def guard_error(ctx, rule, instance, body, relpred, code=None, variant=None, calls=(), protect=(), what='', floor=1):
+    """P6: on every edge where the violating relation holds, every path reaches the effect before any protected
+    block and before a normal return."""
+    edges = guard_edges(ctx, body, relpred)
+    eff = effect_blocks(ctx, body, code, variant, calls)
+    n = 0
+    for br, truth, tgt in edges:
+        n += 1
+        goals = set(body.return_blocks()) | set(protect)
+        p = path_avoiding(body, [tgt], goals, eff) if eff else [tgt]
+        if p is None:
+            ctx.ok(rule, instance, body, br.where(), '%s: violating edge always reaches %s' % (what, code or variant or calls))
+        else:
+            ctx.bad(rule, instance, body, br.where(), '%s: on the violating edge a path avoids %s: %s' % (what, code or variant or calls, fmt_path(body, p)))
+    if n < floor:
+        ctx.bad(rule, instance + '/guard_missing', body, body.where(), '%s: no branch with the required relation found (guard removed or relation changed)' % what)
+    return edges
+
+
+def guard_protects(ctx, rule, instance, body, relpred, sites, what='', need_dom=True):
+    """P4+edge: the protected sites (blocks) are dominated by the guard and unreachable from its violating
+    edge without re-evaluating the guard."""
+    edges = guard_edges(ctx, body, relpred)
+    if not edges:
+        ctx.bad(rule, instance + '/guard_missing', body, body.where(), '%s: no branch with the required relation found' % what)
+        return
+    sites = [s for s in sites if s in body.live_blocks()]
+    for br, truth, tgt in edges:
+        reach = body.reachable_from(tgt, avoid=[br.bb])
+        bad = [s for s in sites if s in reach]
+        nd = [s for s in sites if need_dom and not body.dominates(br.bb, s)]
+        ctx.check(not bad and not nd, rule, instance, body, br.where(),
+                  '%s: %d protected site(s) only reachable over the pass edge' % (what, len(sites)),
+                  '%s: protected site blocks %s reachable on the violating edge / %s not dominated by the guard' % (what, bad, nd))
+
+
+def store_values(ctx, adt, field, in_fn=None, crate='quinn_proto'):
+    """(Write, value descriptor) for direct stores to S.f"""
+    out = []
+    for w in field_writes(ctx.facts, adt, field, crate=crate, include_borrows=False):
+        if in_fn is not None and ctx.facts.root_of(w.body).id != in_fn.id:
+            continue
+        d = describer(ctx.facts, w.body)
+        if w.kind == 'assign' and w.rv and w.rv[0] != 'sd':
+            out.append((w, d.rvalue(w.rv, w.bb, w.idx, 0)))
+        elif w.kind == 'callresult':
+            out.append((w, d.call_desc(w.call, 0)))
+    return out
